@@ -62,7 +62,8 @@ def _classify(func, node, names):
     parents = func.module.parents
     par = parents.get(node)
     child = node
-    while isinstance(par, (ast.Starred,)):
+    while isinstance(par, (ast.Starred,)) or (
+            isinstance(par, (ast.GeneratorExp, ast.ListComp, ast.SetComp)) and par.elt is child):
         child, par = par, parents.get(par)
     if isinstance(par, ast.Attribute) and par.value is child:
         # chi.something — e.g. minimize.chi handled at the Attribute itself
@@ -159,7 +160,7 @@ def rule_cap(ctx):
                     r.violation(key, C.loc(f, n), f"the cap enters a size computation as "
                                 f"{why}, not through min(uncapped, chi)",
                                 stmt=C.unparse(C.enclosing_stmt(f, n)))
-    if caps < 2:
+    if caps < 2 and not r.violations:
         raise AnalysisError(f"only {caps} min(..., chi) cap sites recognised (expected >= 2: "
                             "HyperGraph.compress, candidate_contraction_size)")
     r.note(f"{caps} cap sites of the form min(uncapped, chi)")
